@@ -301,31 +301,36 @@ def semiAllowed : JoinKind → Bool
   | .full => false
   | _ => true
 
-def plan (q : Q2) : Plan2 :=
-  let useLimit := checkUseLimit q.having q.groupBy q.limit.isSome [.table true, .table true, .join q.kind]
-  { push0 := pushedFor 0 q.w
-    limit0 := if useLimit then q.limit else none
-    push1 := pushedFor 1 q.w
-    semi1 := semiAllowed q.kind   -- ON is a single top-level equality: IN filter unless the join is RIGHT / FULL
-    kind := q.kind, c0 := q.c0, c1 := q.c1, w := q.w, limit := q.limit }
-
-/-! ### decidable side conditions of the fragment theorem (`Props/C08.lean: C08_partial_model`) -/
-
-/-- a pushed comparison that is never TRUE on an all-NULL row (`col <op> const`); `col IS NULL` is not -/
+/-- a pushed comparison that is never TRUE on an all-NULL row (`col <op> const`); `col IS NULL` is not
+(`filter_accepts_null`: a BinaryOperation with operator `is`) -/
 def Expr.nullRejecting : Expr → Bool
   | .cmpC _ _ _ _ => true
   | _ => false
 
-/-- everything pushed into the fetch of table `side` rejects the all-NULL row -/
-def pushedNullSafe (side : Nat) (w : Option Expr) : Bool := (pushedFor side w).all Expr.nullRejecting
+/-- `mark_nullable_tables` (repo commit 15097fa) for two tables: LEFT / FULL pad the right table with NULLs, RIGHT / FULL
+the left one -/
+def nullableSide : JoinKind → Nat → Bool
+  | .left, 1 => true
+  | .leftOuter, 1 => true
+  | .full, 1 => true
+  | .right, 0 => true
+  | .full, 0 => true
+  | _, _ => false
 
-/-- the operand(s) that the join pads with NULLs receive only NULL-rejecting filters -/
-def nullSafe (q : Q2) : Bool :=
-  match q.kind with
-  | .inner => true
-  | .left | .leftOuter => pushedNullSafe 1 q.w
-  | .right => pushedNullSafe 0 q.w
-  | .full => pushedNullSafe 0 q.w && pushedNullSafe 1 q.w
+/-- conditions pushed into the fetch of table `side` (`process_table` after 15097fa): on the null-supplying side only the
+filters that reject NULLs are applied before the join -/
+def pushedForK (k : JoinKind) (side : Nat) (w : Option Expr) : List Expr :=
+  (pushedFor side w).filter fun e => !(nullableSide k side) || e.nullRejecting
+
+def plan (q : Q2) : Plan2 :=
+  let useLimit := checkUseLimit q.having q.groupBy q.limit.isSome [.table true, .table true, .join q.kind]
+  { push0 := pushedForK q.kind 0 q.w
+    limit0 := if useLimit then q.limit else none
+    push1 := pushedForK q.kind 1 q.w
+    semi1 := semiAllowed q.kind   -- ON is a single top-level equality: IN filter unless the join is RIGHT / FULL
+    kind := q.kind, c0 := q.c0, c1 := q.c1, w := q.w, limit := q.limit }
+
+/-! ### decidable side conditions of the fragment theorem (`Props/C08.lean: C08_partial_model`) -/
 
 /-- a conjunction of column-vs-constant / IS NULL tests on table `side` only -/
 def Expr.pureConj (side : Nat) : Expr → Bool
@@ -349,8 +354,9 @@ never gets the pushdown any more) -/
 def limitSound (q : Q2) : Bool :=
   (plan q).limit0.isNone || (q.kind.isLeft && whereLeftOnly q.w)
 
-/-- the exact (decidable) hypothesis of `C08_partial_model` -/
-def planSound (q : Q2) : Bool := nullSafe q && limitSound q
+/-- the exact (decidable) hypothesis of `C08_partial_model`; since repo commit 15097fa no condition on outer joins is
+left (filters that accept NULLs are no longer pushed to a null-supplying side), only the LIMIT clause -/
+def planSound (q : Q2) : Bool := limitSound q
 
 /-- step-by-step execution of the skeleton per the step docstrings -/
 def execPlan (p : Plan2) (db : DB) : List (TRow × TRow) :=
